@@ -1,6 +1,7 @@
 import SynKitModel.Canon
 import SynKitProofs.CanonLemmas
 import SynKitProofs.Match
+import SynKitProofs.NautyIRLemmas
 /-!
 # C08 — graph canonicalisation is faithful and sound; the exact form is invariant
 
@@ -233,5 +234,229 @@ example : serialise (canonBy [7, 5, 3] exG) = serialise (canonBy [4, 9, 2] exH) 
 example : serialise (canonBy [3, 7, 5] exG) ≠ serialise (canonBy [4, 9, 2] exH) := by decide
 example : isoDecide covSel (cov exG) (cov exH) = true := by decide
 example : sigBrute exG = sigBrute exH ∧ bruteOrder exG = [7, 5, 3] := by decide +kernel
+
+/-! ## The exact back-end as implemented: the individualisation–refinement search
+
+Model `SynKitModel/NautyIR.lean` (mirror of `synkit/Graph/Canon/nauty.py`); lemma files
+`SynKitProofs/NautyIR{Order,Equiv,Search,Label,Wf,Fuel,Lemmas}.lean`.  Clause of C08: "With the exact
+back-end the converse also holds: any two isomorphic graphs, however their nodes are numbered or
+ordered, receive the same canonical graph and the same signature" — here for the search the
+implementation runs (`irCanon`, `irCanonOrder`, `canonIR`), not for the specification-level
+`canonBrute`.  Hypotheses: both graphs well formed, and `IRCovered`: every node carries element,
+aromatic, charge, hcount and every edge carries order, standard_order (otherwise the real code
+raises or separates absent from default: finding C08-N2). -/
+
+/-- **C08, exact back-end, equivariance of refinement** (the chain the invariance rests on).
+For graphs related by a node map `g : H → G` that preserves the covered attribute look-ups and
+adjacency: the initial partitions correspond cell by cell; node signatures w.r.t. corresponding
+partitions are equal; and `_refine` of corresponding partitions gives corresponding partitions
+(cells correspond up to their order, which is the sorted order on each side). -/
+theorem refine_equivariant (G H : LGraph) (hG : G.WF) (hH : H.WF) (g : Nat → Nat) (h : IRIso G H g) :
+    PartRel g (irInitialPartition H) (irInitialPartition G) ∧
+    (∀ P' P, PartRel g P' P → PartSub H.ids P' → ∀ p ∈ H.ids, irSig G P (g p) = irSig H P' p) ∧
+    (∀ P' P, PartRel g P' P → PartSub H.ids P' → PartRel g (irRefine H P') (irRefine G P)) :=
+  ⟨irInitialPartition_rel h, fun _ _ hP hs _ hp => irSig_rel hG hH h hP hs hp,
+    fun _ _ hP hs => irRefine_rel hG hH h hP hs⟩
+
+/-- **C08, exact back-end, the search trees correspond.** Under the same hypotheses the leaves
+`(prefix, order)` of the search tree of `G` are exactly the images under `g` of the leaves of the
+search tree of `H`, and corresponding leaves carry the same label. -/
+theorem ir_leaves_equivariant (G H : LGraph) (hG : G.WF) (hH : H.WF) (g : Nat → Nat) (h : IRIso G H g) :
+    (∀ l, l ∈ irRootLeaves G ↔ ∃ l' ∈ irRootLeaves H, l = (l'.1.map g, l'.2.map g)) ∧
+    (∀ l' ∈ irRootLeaves H, irLeafLabel G (l'.1.map g, l'.2.map g) = irLeafLabel H l') := by
+  have hrel := irLeaves_rel hG hH h (H.nodes.length + 1) (irInitialPartition_rel h) (irInitialPartition_sub H) []
+  simp only [List.map_nil] at hrel
+  unfold irRootLeaves
+  rw [h.length_eq]
+  refine ⟨hrel, ?_⟩
+  intro b hb
+  have hs := irLeaves_sub H H.ids _ _ [] (irInitialPartition_sub H) (by simp) b hb
+  unfold irLeafLabel
+  simp only
+  rw [← List.map_append]
+  apply irBuildLabel_rel h
+  intro x hx
+  rcases List.mem_append.1 hx with hx | hx
+  · exact hs.1 hx
+  · exact hs.2 hx
+
+/-- **C08, exact back-end, the partial label is a lower bound.** Every leaf below a node of the
+search tree with prefix `cp` has a label whose node segment starts with the node segment of `cp`;
+therefore, when the pruning test `partial_label(cp) > best` fires, every such leaf has a label
+strictly greater than `best` — pruning discards no leaf that could replace or tie the best one.
+(For the concrete order; `irSearch_prune_eq_noprune` holds for every order with a sound test.) -/
+theorem ir_label_lower_bound (G : LGraph) (fuel : Nat) (P : List (List Nat)) (cp : List Nat) :
+    (∀ l ∈ irLeaves G fuel P cp, irNodeSeg G cp <+: (irLeafLabel G l).nodes) ∧
+    (∀ best : IRLabel, irPartialGt (irNodeSeg G cp) best = true →
+      ∀ l ∈ irLeaves G fuel P cp, IRLabel.lt best (irLeafLabel G l) = true) :=
+  ⟨irLeafLabel_nodeSeg_prefix G fuel P cp,
+    fun _ hb l hl => irPartialGt_sound _ _ _ (irLeafLabel_nodeSeg_prefix G fuel P cp l hl) hb⟩
+
+/-- **C08, exact back-end, pruning is sound.** The search with the pruning test returns exactly
+what the search without it returns (same label, same order), from every state, for every strict
+total label order and every pruning test that is a lower-bound test; and that is the first leaf,
+in visiting order, with the least label. -/
+theorem ir_prune_sound (lt : IRLabel → IRLabel → Bool) (pgt : List (List Val) → IRLabel → Bool)
+    (hlt : StrictTotal lt) (hp : IRPruneSound lt pgt) (G : LGraph) :
+    (∀ fuel P pfx best, irSearch lt pgt true G fuel P pfx best = irSearch lt pgt false G fuel P pfx best) ∧
+    (∀ prune, irCanonWith lt pgt prune G = irFoldLeaves lt G (irRootLeaves G) none) ∧
+    IRPruneSound IRLabel.lt irPartialGt ∧ irCanon G = irCanonWith IRLabel.lt irPartialGt false G :=
+  ⟨fun fuel P pfx best => irSearch_prune_eq_noprune lt pgt hlt hp G fuel P pfx best,
+    fun prune => irCanonWith_eq_fold lt pgt hlt hp prune G, irPartialGt_sound, irCanon_eq_noprune G⟩
+
+/-- **C08, exact back-end, the result is a leaf with the least label and a permutation.** On a
+well-formed graph the search returns (it never ends with `perm = None`): the order is a
+permutation of the node ids, it is the order of a leaf of the search tree, the label is the label
+of that leaf, and no leaf has a smaller label. -/
+theorem ir_result_spec (G : LGraph) (hG : G.WF) :
+    ∃ pfx, irCanon G = some (irBuildLabel G (pfx ++ irCanonOrder G), irCanonOrder G) ∧
+      (irCanonOrder G).Perm G.ids ∧ (pfx, irCanonOrder G) ∈ irRootLeaves G ∧
+      ∀ l ∈ irRootLeaves G, IRLabel.lt (irLeafLabel G l) (irBuildLabel G (pfx ++ irCanonOrder G)) = false :=
+  irCanon_spec G hG
+
+/-- **C08, exact back-end, the model's fuel is adequate** (the model is total by fuel where the
+code loops / recurses without bound): on a well-formed graph `_refine` ends in a partition that a
+further pass leaves unchanged (the `while changed` loop has terminated), and any larger depth
+bound gives the same search tree and the same result — no branch of the model's search is cut. -/
+theorem ir_fuel_adequate (G : LGraph) (hG : G.WF) :
+    (∀ P, IRPartOK G.ids P → irRefineStep G (irRefine G P) = irRefine G P) ∧
+    (∀ d, irLeaves G (G.nodes.length + 1 + d) (irInitialPartition G) [] = irRootLeaves G) ∧
+    (∀ d prune, irSearch IRLabel.lt irPartialGt prune G (G.nodes.length + 1 + d) (irInitialPartition G) [] none = irCanon G) := by
+  refine ⟨fun P hP => irRefine_stable G P hP, fun d => irLeaves_root_fuel G hG.1 d, ?_⟩
+  intro d prune
+  rw [irCanonWith_fuel IRLabel.lt irPartialGt IRLabel.lt_strictTotal irPartialGt_sound prune G hG.1 d]
+  cases prune
+  · exact (irCanon_eq_noprune G).symm
+  · rfl
+
+/-- **C08, exact back-end is faithful** (instance of `canonBy_faithful` for the order the search
+computes). -/
+theorem canonIR_faithful (G : LGraph) (hw : G.WF) :
+    IsRelabelling G (canonIR G) (G.ids.map fun v => (v, pos (irCanonOrder G) v)) ∧
+    (canonIR G).ids = List.range' 1 G.nodes.length :=
+  canonBy_faithful (irCanonOrder G) G hw (irCanonOrder_perm G hw)
+
+/-- **C08, exact back-end: equal signatures ⇒ isomorphic.** -/
+theorem canonIR_sound (G H : LGraph) (hG : G.WF) (hH : H.WF) (h : serialise (canonIR G) = serialise (canonIR H)) :
+    ∃ m, IsIso covSel (cov G) (cov H) m :=
+  signature_sound G H hG hH _ _ (irCanonOrder_perm G hG) (irCanonOrder_perm H hH) h
+
+/-- **C08, exact back-end is invariant — search without pruning.** Two well-formed graphs
+carrying the covered attributes that are isomorphic on them get the same minimum label and
+canonical graphs with the same serialisation from the pruning-free search. -/
+theorem ir_invariant_noprune (G H : LGraph) (hG : G.WF) (hH : H.WF) (cG : IRCovered G) (cH : IRCovered H)
+    (h : ∃ m, IsIso covSel (cov G) (cov H) m) :
+    ∃ L o o', irCanonWith IRLabel.lt irPartialGt false G = some (L, o) ∧
+      irCanonWith IRLabel.lt irPartialGt false H = some (L, o') ∧
+      serialise (canonBy o G) = serialise (canonBy o' H) := by
+  obtain ⟨m, hm⟩ := h
+  obtain ⟨L, o, o', e1, e2, _, _, hs⟩ := irCanonWith_invariant IRLabel.lt irPartialGt IRLabel.lt_strictTotal
+    irPartialGt_sound false false G H hG hH cG cH (mapOf m) (isoCov_of_isIso G H hG hH m hm)
+  exact ⟨L, o, o', e1, e2, hs⟩
+
+/-- **C08, exact back-end is invariant** (the search as the code runs it, with pruning): any two
+graphs that are isomorphic on the covered attributes — however their nodes are numbered, and in
+whatever order nodes and edges were inserted — receive the same minimum label and the same
+signature (pre-digest serialisation of the canonical graph). -/
+theorem ir_invariant (G H : LGraph) (hG : G.WF) (hH : H.WF) (cG : IRCovered G) (cH : IRCovered H)
+    (h : ∃ m, IsIso covSel (cov G) (cov H) m) :
+    irCanonLabel G = irCanonLabel H ∧ serialise (canonIR G) = serialise (canonIR H) := by
+  obtain ⟨m, hm⟩ := h
+  exact irCanon_invariant G H hG hH cG cH (mapOf m) (isoCov_of_isIso G H hG hH m hm)
+
+/-- **C08, exact back-end is invariant for every label order.** The same for every strict total
+order on labels and every lower-bound pruning test, with or without pruning on either side — in
+particular for the order Python's string comparison induces on the structured labels whenever
+rendering a label to its string is injective. -/
+theorem ir_invariant_anyOrder (lt : IRLabel → IRLabel → Bool) (pgt : List (List Val) → IRLabel → Bool)
+    (hlt : StrictTotal lt) (hp : IRPruneSound lt pgt) (prune prune' : Bool)
+    (G H : LGraph) (hG : G.WF) (hH : H.WF) (cG : IRCovered G) (cH : IRCovered H)
+    (h : ∃ m, IsIso covSel (cov G) (cov H) m) :
+    ∃ L o o', irCanonWith lt pgt prune G = some (L, o) ∧ irCanonWith lt pgt prune' H = some (L, o') ∧
+      o.Perm G.ids ∧ o'.Perm H.ids ∧ serialise (canonBy o G) = serialise (canonBy o' H) := by
+  obtain ⟨m, hm⟩ := h
+  exact irCanonWith_invariant lt pgt hlt hp prune prune' G H hG hH cG cH (mapOf m) (isoCov_of_isIso G H hG hH m hm)
+
+/-- … and the same canonical graph on the covered attributes (same node ids `1..N`, same node
+keys, same adjacency with the same edge keys). -/
+theorem canonIR_covEq (G H : LGraph) (hG : G.WF) (hH : H.WF) (cG : IRCovered G) (cH : IRCovered H)
+    (h : ∃ m, IsIso covSel (cov G) (cov H) m) : covEq (canonIR G) (canonIR H) = true := by
+  have hs := (ir_invariant G H hG hH cG cH h).2
+  have hc := serialise_inj (canonIR G) (canonIR H)
+    (canonBy_wf _ G hG (irCanonOrder_perm G hG)) (canonBy_wf _ H hH (irCanonOrder_perm H hH)) hs
+  have h1 : (canonIR G).ids = (canonIR H).ids := by
+    have hl := hc.1.length_eq
+    rw [(canonIR_faithful G hG).2, (canonIR_faithful H hH).2] at hl ⊢
+    simp only [List.length_range'] at hl
+    rw [hl]
+  simp only [covEq, Bool.and_eq_true, List.all_eq_true, decide_eq_true_eq, List.contains_iff_mem]
+  refine ⟨⟨⟨?_, ?_⟩, hc.2.1⟩, fun u _ v _ => hc.2.2 u v⟩
+  · intro v hv; rw [← h1]; exact hv
+  · intro v hv; rw [h1]; exact hv
+
+/-- **C08, value objects on the exact back-end.** With the search's order as back-end, wrappers
+of graphs carrying the covered attributes compare equal exactly for isomorphic content. -/
+theorem valueobject_ir_iff {D : Type} [DecidableEq D] (digest : Ser → D) (hinj : Function.Injective digest)
+    (G H : LGraph) (hG : G.WF) (hH : H.WF) (cG : IRCovered G) (cH : IRCovered H) :
+    synGraphEq digest (irCanonOrder G) (irCanonOrder H) G H = true ↔ isoDecide covSel (cov G) (cov H) = true := by
+  rw [isoDecide_iff covSel (cov G) (cov H) (cov_wf H hH)]
+  constructor
+  · intro h
+    have := (valueobject_eq_iff digest hinj G H hG hH _ _ (irCanonOrder_perm G hG) (irCanonOrder_perm H hH)).1.1 h
+    exact canonIR_sound G H hG hH this
+  · intro h
+    have := (ir_invariant G H hG hH cG cH h).2
+    rw [synGraphEq_iff]
+    exact congrArg digest this
+
+/-- C08 for a canonicaliser on a class `C` of graphs (the exact back-end is only defined — does
+not raise — on graphs carrying the covered attributes). -/
+def FullStatementOn (C : LGraph → Prop) (canon : LGraph → LGraph) : Prop :=
+  ∀ G : LGraph, G.WF → C G →
+    (∃ m, IsRelabelling G (canon G) m) ∧
+    (∀ H : LGraph, H.WF → serialise (canon G) = serialise (canon H) → ∃ m, IsIso covSel (cov G) (cov H) m) ∧
+    (∀ H : LGraph, H.WF → C H → (∃ m, IsIso covSel (cov G) (cov H) m) →
+      serialise (canon G) = serialise (canon H) ∧ covEq (canon G) (canon H) = true)
+
+/-- **C08 at full strength for the model of the implemented exact back-end**: faithful, sound and
+invariant on the well-formed graphs that carry the covered attributes. -/
+theorem fullStatement_ir : FullStatementOn IRCovered canonIR := by
+  intro G hG cG
+  refine ⟨⟨_, (canonIR_faithful G hG).1⟩, fun H hH h => canonIR_sound G H hG hH h, ?_⟩
+  intro H hH cH hiso
+  exact ⟨(ir_invariant G H hG hH cG cH hiso).2, canonIR_covEq G H hG hH cG cH hiso⟩
+
+/-! ### Non-vacuity (exact back-end) -/
+
+private def ir_a (e : String) (h : Int) : Attrs :=
+  [("element", .str e), ("aromatic", .bool false), ("charge", .num 0), ("hcount", .num h)]
+private def ir_e (o : Int) : Attrs := [("order", .num o), ("standard_order", .num 0)]
+/-- A four-ring C–C–C–N with one double bond, ids 7, 3, 5, 9. -/
+private def irG : LGraph :=
+  { nodes := [(7, ir_a "C" 4), (3, ir_a "C" 4), (5, ir_a "C" 2), (9, ir_a "N" 2)]
+    edges := [(7, 3, ir_e 2), (3, 5, ir_e 2), (5, 9, ir_e 4), (9, 7, ir_e 2)] }
+/-- The same ring numbered and inserted differently (7↦2, 3↦8, 5↦4, 9↦1). -/
+private def irH : LGraph :=
+  { nodes := [(1, ir_a "N" 2), (4, ir_a "C" 2), (8, ir_a "C" 4), (2, ir_a "C" 4)]
+    edges := [(4, 1, ir_e 4), (2, 1, ir_e 2), (8, 4, ir_e 2), (8, 2, ir_e 2)] }
+/-- A symmetric graph: the 4-cycle of identical atoms (8 leaves in the search tree). -/
+private def irC4 : LGraph :=
+  { nodes := [(1, ir_a "C" 4), (2, ir_a "C" 4), (3, ir_a "C" 4), (4, ir_a "C" 4)]
+    edges := [(1, 2, ir_e 2), (2, 3, ir_e 2), (3, 4, ir_e 2), (4, 1, ir_e 2)] }
+/-- A path of four identical atoms (two leaves, one per end). -/
+private def irP : LGraph :=
+  { nodes := [(1, ir_a "C" 0), (2, ir_a "C" 0), (3, ir_a "C" 0), (4, ir_a "C" 0)]
+    edges := [(1, 2, ir_e 2), (2, 3, ir_e 2), (3, 4, ir_e 2)] }
+
+example : irG.WF ∧ irH.WF ∧ IRCovered irG ∧ IRCovered irH := by decide
+example : isoDecide covSel (cov irG) (cov irH) = true := by decide
+example : irInitialPartition irG = [[5], [3, 7], [9]] ∧ irRefine irG (irInitialPartition irG) = [[5], [7], [3], [9]] := by
+  decide +kernel
+example : irCanonOrder irG = [5, 7, 3, 9] ∧ irCanonOrder irH = [4, 2, 8, 1] := by decide +kernel
+example : irCanonLabel irG = irCanonLabel irH ∧ serialise (canonIR irG) = serialise (canonIR irH) := by decide +kernel
+example : (irRootLeaves irC4).length = 8 ∧ irCanonOrder irC4 = [1, 3, 2, 4] := by decide +kernel
+example : irRootLeaves irP = [([1], [1, 4, 3, 2]), ([4], [4, 1, 2, 3])] ∧ irCanonOrder irP = [1, 4, 3, 2] := by decide +kernel
+/-- the pruning test can fire: a prefix starting at the nitrogen against the best label of `irG` -/
+example : irPartialGt (irNodeSeg irG [9]) (irBuildLabel irG [5, 7, 3, 9]) = true := by decide +kernel
 
 end SynKit.Canon
